@@ -214,3 +214,33 @@ func init() {
 		}
 	}
 }
+
+func init() {
+	dumpers["reflists"] = func(c *Ctx) {
+		rl := c.NewRefLists()
+		for p, why := range rl.stores {
+			fmt.Printf("stores: %s(%s): %s\n", ssaFuncName(p.Parent()), p.Name(), why)
+		}
+		for p := range rl.rawParam {
+			fmt.Printf("rawParam: %s(%s)\n", ssaFuncName(p.Parent()), p.Name())
+		}
+		for f, r := range rl.rawRet {
+			for i, b := range r {
+				if b {
+					fmt.Printf("rawRet: %s #%d\n", ssaFuncName(f), i)
+				}
+			}
+		}
+		for l, sw := range rl.sweeps {
+			fmt.Printf("sweep: %s in %s (%d)\n", l.Name(), ssaFuncName(l.Parent()), len(sw))
+		}
+		for _, s := range rl.Sinks() {
+			fmt.Printf("sink raw=%v %s | %s | %s\n", s.Raw, ssaFuncName(s.Fn), s.Desc, c.Pos(instrPos(s.At)))
+		}
+		finds, checked := rl.obj.Findings()
+		fmt.Println("object-level checked", checked)
+		for _, f := range finds {
+			fmt.Printf("obj: %s | %s | %s\n", ssaFuncName(f.Fn), f.Desc, c.Pos(instrPos(f.At)))
+		}
+	}
+}
